@@ -646,6 +646,27 @@ func (w *spWorld) apply(st *spStep, a *spArgs, rep *common.Report) error {
 			}
 			if g := w.coinIDs(ops); fmt.Sprint(g) != fmt.Sprint(sorted(a.Sel)) {
 				w.add("inputs", what+": inputs of the funded packet", g, sorted(a.Sel))
+				break
+			}
+			// the wallet signs and finalises the packet: the extracted transaction has to verify
+			// (ComputeInputScript, which FinalizePsbt uses, is documented for P2WKH / nested P2WKH and handles
+			// P2TR; legacy P2PKH inputs are outside what the PSBT path supports - see DESIGN section 7)
+			if st.Ret == "ok" && a.Scope != "bip44" {
+				ferr := e.w.FinalizePsbt(&scope, uint32(a.Acct), pkt)
+				w.n++
+				if ferr != nil {
+					w.add("sig", what+": FinalizePsbt of the funded packet", ferr.Error(), "finalised")
+					break
+				}
+				ftx, xerr := psbt.Extract(pkt)
+				if xerr != nil {
+					w.add("sig", what+": the finalised packet cannot be extracted", xerr.Error(), "a transaction")
+					break
+				}
+				w.n++
+				if verr := w.verifySigs(ftx); verr != nil {
+					w.add("sig", what+": the finalised transaction does not verify under the standard script flags", verr.Error(), "valid")
+				}
 			}
 		}
 	case "DryRun":
